@@ -45,6 +45,48 @@ Theorem wfb_gives_wf_complex : forall (P : leaf (R * R) -> Prop) (e : oexpr (R *
   wfb e = true -> Forall P (leaves e) -> wf P e.
 Proof. exact (wf_of_wfb cring_ok_C). Qed.
 
+(* TIE TO THE SOURCE BY PROOF.  Gen/Adjoints.v is regenerated on every run by translate/adjoints.py from the
+   `adjoint` properties of operator.py (7 expression classes), pspace_ops.py (Broadcast/Reduction/Diagonal and the
+   projections), default_ops.py, tensor_ops.py, diff_ops.py, discr_ops.py, read as constructor expressions (class,
+   operand order, conjugations, space arguments).  C05/AdjInterp.v interprets these tables ([adjoint_gen],
+   [leaf_adjoint_gen]; the Python `*` is dispatched as Operator.__mul__/__rmul__ do).  The model the theorems of
+   this file are about IS that interpretation -- for every tree and every leaf: *)
+From Verif Require Import C05.AdjSyntax Gen.Adjoints C05.AdjInterp C05.AdjProofs.
+Theorem adjoint_model_is_generated : forall (T : Type) (NT : Num T) (CT : Conj T) (e : oexpr T),
+  adjoint_gen true e = adjoint e.
+Proof. exact (@adjoint_generated). Qed.
+Theorem leaf_adjoint_model_is_generated : forall (T : Type) (NT : Num T) (CT : Conj T) (l : leaf T),
+  leaf_adjoint_gen true l = Some (leaf_adjoint l).
+Proof. exact (@leaf_adjoint_generated). Qed.
+(* [true] selects the complex branch of the purely "is it real?" conditions of the source; on a carrier with
+   trivial conjugation (real spaces) the real branches give the same expression: *)
+Theorem adjoint_real_branches_agree : forall (T : Type) (NT : Num T) (CT : Conj T),
+  (forall a : T, nconj a = a) -> forall e : oexpr T, adjoint_gen false e = adjoint_gen true e.
+Proof. exact (@real_reading_agrees). Qed.
+Print Assumptions adjoint_model_is_generated.
+
+(* TRANSFER.  The model the correspondence shards EXECUTE (carriers Q and Q*Q) is the restriction of the model
+   the theorems are ABOUT (carriers R and R*R): Q2R (and its componentwise lift Q2C to complex pairs) is a carrier
+   homomorphism and commutes with the evaluation of every tree, with [adjoint], and with the evaluation of the
+   returned adjoint.  [all_divs_ok]: the divisors occurring in a leaf (cell volumes, product-space weights, cell
+   sides) are not zero.  Real carrier: every leaf kind (finite differences through C13.fd_transfer, resizing through
+   C16.resize1_transfer); complex carrier: the leaves built from the carrier operations only ([leaf_fine]). *)
+From Verif Require Import Base.Transfer C05.Transfer C05.TransferNd.
+From Coq Require Import QArith Qreals.
+Theorem model_transfer_real : forall e : oexpr Q,      (* [divsb]: evaluated on every case by Corr.check_wf *)
+  divsb e = true -> divsb (adjoint e) = true ->
+  (forall x, map Q2R (eval e x) = eval (omap Q2R e) (map Q2R x)) /\
+  omap Q2R (adjoint e) = adjoint (omap Q2R e) /\
+  (forall y, map Q2R (eval (adjoint e) y) = eval (adjoint (omap Q2R e)) (map Q2R y)).
+Proof. exact transfer_real_checked. Qed.
+Theorem model_transfer_complex : forall e : oexpr (Q * Q),
+  Forall leaf_fine (leaves e) -> Forall leaf_fine (leaves (adjoint e)) ->
+  (forall x, map Q2C (eval e x) = eval (omap Q2C e) (map Q2C x)) /\
+  omap Q2C (adjoint e) = adjoint (omap Q2C e) /\
+  (forall y, map Q2C (eval (adjoint e) y) = eval (adjoint (omap Q2C e)) (map Q2C y)).
+Proof. exact transfer_complex. Qed.
+Print Assumptions model_transfer_complex.
+
 (* T1 (A.adjoint.adjoint acts like A, all trees): whenever the expression and the expression
    returned as its adjoint are both well-formed with good leaves, and the weights are real
    and invertible, the double adjoint evaluates like the operator itself (uniqueness of the
@@ -183,6 +225,21 @@ Theorem builtin_leaves_good :
      leaf_good (LSampling (repeat cv n) idx b cv) /\ leaf_good (LWSum (repeat cv n) idx b cv) /\
      leaf_good (LFlatten (repeat cv n) idx cv) /\ leaf_good (LUnflatten (repeat cv n) idx cv)).
 Proof. exact (leaves_good_all OK). Qed.
+(* ComponentProjection(Adjoint) with a slice or an index list: any selection of DISTINCT components in any order;
+   FULL STATEMENT (false: component_projection_repeated_index_refuted, and the weighted case as above).
+   _partial: indices distinct and every selected component has product weight 1. *)
+Theorem component_projection_multi_adjoint_partial : forall (ws : list (list T)) (pw : list T) (idxs : list nat),
+  NoDup idxs -> length pw = length ws ->
+  Forall (fun i => (i < length ws)%nat /\ nth i pw nzero = none_) idxs ->
+  leaf_ok (LProjM ws pw idxs).
+Proof. exact (leaf_ok_projm OK). Qed.
+Theorem component_projection_multi_adjoint_adjoint_partial : forall (ws : list (list T)) (pw : list T) (idxs : list nat),
+  NoDup idxs -> length pw = length ws ->
+  Forall (fun i => (i < length ws)%nat /\ nth i pw nzero = none_) idxs ->
+  vconj (pweights pw ws) = pweights pw ws ->
+  vconj (concat (map (fun i => nth i ws []) idxs)) = concat (map (fun i => nth i ws []) idxs) ->
+  leaf_ok (LProjMAdj ws pw idxs).
+Proof. exact (leaf_ok_projm_adj OK). Qed.
 Theorem projection_and_pointwise_leaves_good :
   (forall (ws : list (list T)) (pw : list T) i, (i < length ws)%nat -> length pw = length ws ->
      nth i pw nzero = none_ -> vconj (pweights pw ws) = pweights pw ws -> vconj (nth i ws []) = nth i ws [] ->
@@ -199,6 +256,7 @@ Print Assumptions matrix_adjoint_partial.
 Print Assumptions sampling_adjoint_partial.
 Print Assumptions flattening_adjoint_partial.
 Print Assumptions component_projection_adjoint_partial.
+Print Assumptions component_projection_multi_adjoint_partial.
 Print Assumptions pointwise_inner_adjoint.
 Print Assumptions builtin_leaves_good.
 
@@ -267,23 +325,18 @@ Proof. exact leaf_ok_matrix_axis. Qed.
 Print Assumptions matrix_axis_adjoint_partial.
 
 (* ResizingOperator (pad_const = 0; resize_array of C16 along axis 0, 1, ...) between uniformly weighted
-   discretisations with the same cell volume c.  [config_ok]: every axis offset in range and the padding legal
-   for the mode (C16).  (i) the separable resize and the separable adjoint resize taken in reverse axis order
-   are adjoint for EVERY configuration; (ii) the operator the code returns (same axis order in both
-   directions) is the adjoint when at most one axis is resized -- all 5 pad modes, all shapes/offsets.
+   discretisations with the same cell volume c, and the operator the code returns as its adjoint (same axis
+   order, axis 0 first, in both directions).  [config_ok]: every axis offset in range and the padding legal
+   for the mode (C16).  All 5 pad modes, all shapes/offsets, ANY number of axes resized at once (growing in some
+   and shrinking in others): uses C16.axis_order_immaterial.
    FULL STATEMENT for nodes_on_bdry spaces is false (finding resizing-adjoint-nodes-on-bdry). *)
-Theorem resizing_separable_adjoint : forall (c : R) (rm : C16.Syntax.pmode) (ish osh : list nat) (offs : list Z),
-  C16.ModelNd.config_ok rm ish osh offs = true ->
-  adj_pair (repeat c (prodn ish)) (repeat c (prodn osh))
-    (C16.ModelNd.sep_loop rm C16.Syntax.Forward 0%R true 1 ish osh offs)
-    (C16.ModelNd.sep_rev_loop rm C16.Syntax.Adjoint 0%R true 1 ish osh offs).
-Proof. exact resize_sep_adj_pair. Qed.
 Theorem resizing_adjoint_partial : forall (c : R) (rm : C16.Syntax.pmode) (ish osh : list nat) (offs : list Z),
-  C16.ModelNd.config_ok rm ish osh offs = true -> C16.PNd3.at_most_one ish osh offs = true ->
+  C16.ModelNd.config_ok rm ish osh offs = true ->
   leaf_ok (LResize (repeat c (prodn ish)) (repeat c (prodn osh)) rm ish osh offs) /\
   leaf_ok (LResizeAdj (repeat c (prodn osh)) (repeat c (prodn ish)) rm ish osh offs).
 Proof. exact leaf_ok_resize. Qed.
-(* Print Assumptions resizing_adjoint_partial: walks all of C16 (~30 s); its axioms are those of C16.Props.resize_adjoint_nd_single_axis *)
+(* Print Assumptions resizing_adjoint_partial: walks all of C16 (~30 s); its axioms are those of
+   C16.Props.axis_order_immaterial and resize_adjoint_nd *)
 
 (* Real <-> complex operators, realified (C^n = R^2n as re ++ im with weights w ++ w, so that
    [cinner] is the REAL PART of the complex inner product): RealPart/ImagPart of a real and of a
@@ -339,6 +392,8 @@ Theorem flattening_adjoint_refuted : identity_fails (LFlatten [2] [0%nat] 1).
 Proof. exact flatten_weighted_refuted. Qed.
 Theorem component_projection_adjoint_refuted : identity_fails (LProj [[1]; [1]] [2; 3] 0).
 Proof. exact proj_weighted_refuted. Qed.
+Theorem component_projection_repeated_index_refuted : identity_fails (LProjM [[1]; [1]] [1; 1] [0%nat; 0%nat]).
+Proof. exact projm_repeated_refuted. Qed.
 Theorem partial_derivative_nodes_on_bdry_refuted :
   identity_fails (LPDeriv [1/4; 1/2; 1/4] [1/4; 1/2; 1/4] [3%nat] 0 Forward PConstant (1/2)).
 Proof. exact pderiv_bdry_refuted. Qed.
